@@ -254,6 +254,13 @@ def BinaryPigeonholePrinciple(pigeons, holes, formula_class=CNF):
         pigeons, holes)
     F = formula_class(description=description)
 
+    # Degenerate cases: a binary mapping needs a non empty domain and range
+    if pigeons == 0:
+        return F
+    if holes == 0:
+        F.add_clause([])
+        return F
+
     p = F.new_binary_mapping(pigeons, holes)
     F.force_complete_mapping(p)
     F.force_injective_mapping(p)
